@@ -174,13 +174,14 @@ Shape(k) ==       \* bodies of the grouping g1
     [] k = 4 -> << Stmt("container", "k1", << Leaf("x"), Stmt("grouping", "g2", << Leaf("inner2") >>), Uses("", "g2") >>) >>
     [] k = 5 -> << Stmt("container", "k1", << Leaf("x"),
                       Stmt("action", "act", << Stmt("input", "input", << Leaf("ai") >>), Stmt("output", "output", << Leaf("ao"), Uses("", "g2") >>) >>) >>) >>
-    [] k = 6 -> << Stmt("container", "k1", << Leaf("x"), Stmt("container", "ext", <<>>) >>) >>       \* an empty container inside
+    [] k = 6 -> << Stmt("container", "k1", << Stmt("leaf", "x", << Stmt("type", "tdd", <<>>) >>), Stmt("container", "ext", <<>>) >>) >>       \* an empty container inside; x takes its default from its type
     [] k = 7 -> << Stmt("container", "k1", << Stmt("if-feature", "f1", <<>>), Stmt("if-feature", "f2", <<>>), Stmt("if-feature", "f3", <<>>),
                                                Stmt("leaf-list", "bl", << Stmt("type", "string", <<>>), Stmt("min-elements", 1, <<>>), Stmt("max-elements", 8, <<>>) >>),
                                                Leaf("x") >>) >>
 G1(k) == Stmt("grouping", "g1", Shape(k))
 \* where g1 (and the g2 next to it) is defined: d's top level, d's submodule, u's top level, u's submodule
-DefD == << Stmt("grouping", "g2", << Leaf("d2") >>) >>
+Tdd == Stmt("typedef", "tdd", << Stmt("type", "string", <<>>), Stmt("default", "tdv", <<>>) >>)     \* the one typedef with a default
+DefD == << Tdd, Stmt("grouping", "g2", << Leaf("d2") >>) >>
 UseSite(site, ref) ==     \* a statement of u that uses ref at the given kind of place
   CASE site = "top" -> Stmt("container", "s_" \o site, << [ref EXCEPT !.kids = << Stmt("if-feature", "fa", <<>>) >>] >>)      \* (kept inside a container so that two sites never collide)
     [] site = "list" -> Stmt("list", "s_list", << Stmt("key", "kk", <<>>), Leaf("kk"), ref >>)
@@ -201,7 +202,7 @@ UsesProg(k, def, s1, s2, mut) ==
   LET ref == IF def \in {"d", "ds"} THEN Uses("d", "g1") ELSE IF def = "dd" THEN Uses("dd", "g1") ELSE Uses("", "g1")
       \* def = "wrap": u's own g1 wraps d's grouping of the same name
       \* u has a g2 of its own: names inside g1 must not bind to it when g1 lives in d
-      uOwn == << Stmt("grouping", "g2", << Leaf("u2") >>) >>
+      uOwn == << Tdd, Stmt("grouping", "g2", << Leaf("u2") >>) >>
       uBody == (IF def = "u" THEN << G1(k) >> ELSE <<>>)
                \o (IF def = "wrap" THEN << Stmt("grouping", "g1", << Uses("d", "g1"), Leaf("wy") >>) >> ELSE <<>>) \o uOwn \o << UseSite(s1, ref) >> \o (IF s2 # s1 THEN << UseSite(s2, ref) >> ELSE <<>>)
       \* when g1 lives in module dd (prefix dd), module d (prefix d, imported first) holds a decoy of the same name
@@ -214,6 +215,7 @@ UsesProg(k, def, s1, s2, mut) ==
                  [] mut = "config" -> << Stmt("deviation", target, << Stmt("deviate", "add", << Cfg("false") >>) >>) >>
                  [] mut = "maxelem" -> << Stmt("deviation", target, << Stmt("deviate", "replace", << Stmt("max-elements", 2, <<>>) >>) >>) >>
                  [] mut = "inaction" -> << Aug(target \o << Q("u", "act"), Q("u", "input") >>, << Leaf("grafted") >>) >>
+                 [] mut = "mandatory" -> << Stmt("deviation", target \o << Q("u", "x") >>, << Stmt("deviate", "add", << Stmt("mandatory", "true", <<>>) >>) >>) >>
                  [] mut = "inext" -> << Aug(target \o << Q("u", "ext") >>, << Leaf("grafted") >>) >>
                  [] mut = "llbounds" -> << Stmt("deviation", target \o << Q("u", "bl") >>,
                                                 << Stmt("deviate", "replace", << Stmt("min-elements", 2, <<>>), Stmt("max-elements", 4, <<>>) >>) >>) >>
@@ -222,13 +224,13 @@ UsesProg(k, def, s1, s2, mut) ==
       w == Mod("w", ImpU, <<>>, wBody)
   IN Prog(("u" :> u) @@ ("d" :> d) @@ ("w" :> w)
           @@ (IF def = "us" THEN ("us" :> Sub("us", "u", ImpD, <<>>, << G1(k) >>)) ELSE << >>)
-          @@ (IF def = "dd" THEN ("dd" :> Mod("dd", NoImp, <<>>, << Stmt("grouping", "g2", << Leaf("dd2") >>), G1(k) >>)) ELSE << >>)
+          @@ (IF def = "dd" THEN ("dd" :> Mod("dd", NoImp, <<>>, << Tdd, Stmt("grouping", "g2", << Leaf("dd2") >>), G1(k) >>)) ELSE << >>)
           @@ (IF def = "ds" THEN ("ds" :> Sub("ds", "d", NoImp, <<>>, << G1(k), Stmt("grouping", "g2", << Leaf("ds2") >>) >>)) ELSE << >>))
-MutOK(k, mut) == /\ mut = "inext" => k = 6
+MutOK(k, mut) == /\ mut \in {"inext", "mandatory"} => k = 6
                  /\ mut = "llbounds" => k = 7
                  /\ mut = "inaction" => k = 5
                  /\ mut = "maxelem" => k \in {1, 2}
-Muts == {"none", "augment", "notsupp", "config", "maxelem", "inaction", "inext", "llbounds"}
+Muts == {"none", "augment", "notsupp", "config", "maxelem", "inaction", "inext", "llbounds", "mandatory"}
 Defs == {"d", "ds", "u", "dd", "wrap"}
 SUses(dummy) ==
   { UsesProg(k[1], def, s1, s2, k[2]) : k \in {x \in (1..7) \X Muts : MutOK(x[1], x[2])}, def \in Defs, s1 \in Sites, s2 \in Sites }
@@ -243,6 +245,7 @@ DevBase ==
                               Stmt("leaf-list", "gll", << S1("type", "string"), S1("min-elements", 2), S1("max-elements", 5) >>) >>),
      Stmt("rpc", "rp", << Stmt("input", "input", << Leaf("ri") >>), Stmt("output", "output", << Leaf("ro"), Leaf("ro2") >>) >>),
      LeafD("ld", "dv"),
+     Tdd, Stmt("leaf", "lt", << S1("type", "tdd") >>),
      Leaf("ln"),
      Stmt("leaf", "lm", << S1("type", "string"), S1("mandatory", "true") >>),
      Stmt("leaf-list", "ll", << S1("type", "string"), S1("min-elements", 2), S1("max-elements", 5) >>),
@@ -252,7 +255,7 @@ DevBase ==
      Stmt("container", "u", << Uses("", "g") >>),
      Stmt("container", "u2", << Uses("", "g") >>) >>
 DevTargets ==     \* [path, kind]
-  { [p |-> << Q("a","ld") >>, k |-> "leafd"], [p |-> << Q("a","ln") >>, k |-> "leaf"], [p |-> << Q("a","lm") >>, k |-> "leaf"],
+  { [p |-> << Q("a","ld") >>, k |-> "leafd"], [p |-> << Q("a","ln") >>, k |-> "leaf"], [p |-> << Q("a","lt") >>, k |-> "leaf"], [p |-> << Q("a","lm") >>, k |-> "leaf"],
     [p |-> << Q("a","ll") >>, k |-> "leaf-list"], [p |-> << Q("a","lld") >>, k |-> "leaf-listd"],
     [p |-> << Q("a","li") >>, k |-> "list"], [p |-> << Q("a","co") >>, k |-> "container"],
     [p |-> << Q("a","u"), Q("a","gl") >>, k |-> "leafd"],
